@@ -6,8 +6,20 @@ RunSeqOf(S) == LET RECURSIVE F(_)
                            ELSE LET r == CHOOSE x \in T : \A y \in T : x[1] <= y[1]
                                 IN <<r>> \o F(T \ {r})
                IN F(S)
-GenNext == /\ Next
-           /\ PrintT(ToJson([store |-> RunSeqOf(store), kind |-> req'.kind, origin |-> req'.origin,
-                             amount |-> req'.amount, target |-> req'.target, len |-> req'.len,
-                             st |-> ans'.st, from |-> ans'.from, n |-> ans'.n]))
+VARIABLE hs    \* HistMode: the operations so far with the answers the property demands
+ReqRec(r, a) == [op |-> "serve", kind |-> r.kind, origin |-> r.origin, amount |-> r.amount, target |-> r.target,
+                 len |-> r.len, st |-> a.st, from |-> a.from, n |-> a.n, lo |-> 0, hi |-> 0]
+MutRec(m) == [op |-> m.op, kind |-> "", origin |-> 0, amount |-> 0, target |-> 0, len |-> 0, st |-> "", from |-> 0,
+              n |-> 0, lo |-> m.lo, hi |-> m.hi]
+GenInit == Init /\ hs = [store0 |-> RunSeqOf(store), ops |-> <<>>]
+GenNext ==
+    \/ /\ \E r \in Requests : Serve(r)
+       /\ hs' = [hs EXCEPT !.ops = Append(@, ReqRec(req', ans'))]
+       /\ IF HistMode
+          THEN ph' = 3 => PrintT(ToJson([store |-> hs'.store0, ops |-> hs'.ops]))
+          ELSE PrintT(ToJson([store |-> RunSeqOf(store), kind |-> req'.kind, origin |-> req'.origin,
+                              amount |-> req'.amount, target |-> req'.target, len |-> req'.len,
+                              st |-> ans'.st, from |-> ans'.from, n |-> ans'.n]))
+    \/ /\ \E m \in Mutations(store) : Mutate(m) /\ hs' = [hs EXCEPT !.ops = Append(@, MutRec(m))]
+GenView == <<store, req, ph, hs>>
 =============================================================================
